@@ -171,6 +171,12 @@ _r("sigma/correlations.py", "SigmaCorrelationCondition.from_dict", "comp", "unkn
 _r("sigma/rule/base.py", "SigmaYAMLLoader.construct_mapping", "draw", "hash(key)",
    "internal: the value of hash() is discarded, the call only tests hashability of a YAML mapping key "
    "(TypeError -> YAMLError)")
+_r("sigma/collection.py", "SigmaCollection.resolve_rule_references", "draw", "id(rule)",
+   "internal: object identities are only put into / looked up in membership sets (members, visited) of the "
+   "topological ordering (C09 repair); the sets are never iterated and the ids never rendered; the order "
+   "is driven by the rule list and the referenced_rules lists")
+_r("sigma/collection.py", "SigmaCollection.resolve_rule_references.visit", "draw", "id(rule)",
+   "internal: same membership tests inside the nested visit() of the topological ordering")
 _r("sigma/exceptions.py", "SigmaRuleLocation.__str__", "str", "str(self.path.resolve())",
    "not-a-set: pathlib.Path.resolve(), the heuristic knows a set-returning function of the same name")
 _r("sigma/filters.py", "SigmaFilter.apply_on_rule", "draw", "random.choices(string.ascii_lowercase, k=10)",
